@@ -159,6 +159,7 @@ func TestVerifC05Pipeline(t *testing.T) {
 	n := h.N(1700, 32000)
 	for idx := 0; idx < n; idx++ {
 		r := h.Begin(idx)
+		c05DeclReset(h) // round 9: registry of the pod objects declared in this case
 		if r == nil {
 			continue
 		}
@@ -551,6 +552,10 @@ func TestVerifC05Pipeline(t *testing.T) {
 				pod := c05Pod{uid: pu, req: q, split: r.Chance(1, 4)}
 				if q == [c05D]int64{-1, -1, -1} && r.Bool() {
 					pod.empty = true
+				}
+				pod.ovh = c05GenOvh(r, q) // round 9: part of the request q is declared as spec.overhead (~30% of the pods)
+				if pod.ovh != [c05D]int64{} {
+					h.Tag("pod:with-overhead")
 				}
 				kpod := pod.build()
 				kpod.Labels = map[string]string{"app": c05Apps[app]}
